@@ -25,16 +25,6 @@ FINDINGS = [
               "(b'\\x9f', 1) of BIT STRING { a(0) } decodes as 8 bits (per.py rstrip_zeros ignores number_of_bits)",
          witness=dict(kind='roundtrip', spec=HDR + 'A ::= BIT STRING { a(0) }' + END, codec='uper', type='A',
                       value=T([B('9f'), 1]), expected=T([B('80'), 1]))),
-    dict(key='per-bmpstring-permitted-alphabet', props=['C01'],
-         text='PER/UPER BMPString with a FROM constraint: the decoder rebuilds characters with the wrong byte width, '
-              "'ojwbd' of BMPString (SIZE (5..45)) (FROM (\"a\"..\"z\")) does not decode (per.py:655-660)",
-         witness=dict(kind='roundtrip', spec=HDR + 'A ::= BMPString (SIZE (5..45)) (FROM ("a".."z"))' + END,
-                      codec='per', type='A', value='ojwbd')),
-    dict(key='per-single-character-alphabet', props=['C01'],
-         text="PER/UPER known-multiplier string with a one-character permitted alphabet FROM (\"a\"): 'a' decodes as '' "
-              '(zero bits per character, to_byte_array yields no bytes)',
-         witness=dict(kind='roundtrip', spec=HDR + 'A ::= VisibleString (SIZE (0..10)) (FROM ("a"))' + END,
-                      codec='per', type='A', value='a')),
     dict(key='oer-utf8string-fixed-size-octets', props=['C01'],
          text="OER UTF8String (SIZE (3)) is written as 3 octets without a length determinant: 'åäö' (6 octets) cannot be "
               'decoded (oer.py KnownMultiplierStringType used for UTF8String)',
@@ -66,7 +56,7 @@ FINDINGS = [
               "B ::= SEQUENCE OF CHOICE { s GeneralString, d A } value [('b', [('d', [])])] raises TypeError in encode (Recursive has no tag, oer.py:1235-1249)",
          witness=dict(kind='roundtrip', spec=HDRX + 'A ::= SEQUENCE OF CHOICE { a INTEGER, b B } B ::= SEQUENCE OF CHOICE { s GeneralString, d A }' + END,
                       codec='oer', type='A', value=[T(['b', [T(['d', []])]])])),
-    dict(key='per-addition-group-all-zero-bits-dropped', props=['C01'],
+    dict(key='per-addition-group-all-zero-bits-dropped', props=['C01', 'C05'],
          text='PER/UPER: an extension addition group whose encoding is all zero bits is treated as absent, '
               'SEQUENCE { x BOOLEAN, ..., [[ d INTEGER (0), v BOOLEAN OPTIONAL ]] } value {x, d 0} loses d (per.py:793-798)',
          witness=dict(kind='roundtrip', spec=HDR + 'A ::= SEQUENCE { x BOOLEAN, ..., [[ d INTEGER (0), v BOOLEAN OPTIONAL ]] }' + END,
@@ -81,7 +71,7 @@ FINDINGS = [
               'must be separated by exactly one space: "A ::= OCTET  STRING", a newline, a tab or a comment between the words is rejected '
               '(pyparsing Keyword literals containing a space, parser.py:870-928)',
          witness=dict(kind='custom', name='multiword_keyword')),
-    dict(key='size-constraint-on-type-reference-ignored', props=['C19'],
+    dict(key='size-constraint-on-type-reference-ignored', props=['C19', 'C05'],
          text='a SIZE constraint written on a type reference is ignored by PER/UPER/OER when the reference is a SEQUENCE OF element '
               '(or the referenced type is a BIT STRING / SEQUENCE OF): B ::= BIT STRING  A ::= SEQUENCE OF B (SIZE (1..2)) encodes the '
               'element with an unconstrained length (01 02 80) while SEQUENCE OF BIT STRING (SIZE (1..2)) gives 01 c0 in UPER '
@@ -93,7 +83,7 @@ FINDINGS = [
               'compiler.py:239-243 looks the recursive type up in the wrong module), while the same definitions in one module do: moving a '
               'definition into another module and importing it changes the outcome',
          witness=dict(kind='custom', name='recursive_across_modules')),
-    dict(key='extensibility-implied-not-applied-to-nested-types', props=['C19'],
+    dict(key='extensibility-implied-not-applied-to-nested-types', props=['C19', 'C05'],
          text='EXTENSIBILITY IMPLIED is only applied to SEQUENCE/SET/CHOICE types reached through members, not to one written as the element '
               'of a SEQUENCE OF / SET OF: with EXTENSIBILITY IMPLIED, T ::= CHOICE { a BOOLEAN }  A ::= SEQUENCE OF T encodes [(a, TRUE)] as '
               '01 40 (extension bit present) but A ::= SEQUENCE OF CHOICE { a BOOLEAN } as 01 80 in UPER (compiler.py:317-334)',
@@ -134,4 +124,39 @@ FINDINGS = [
          text="XER: a carriage return (legal in XML 1.0) inside a character string is written raw instead of as &#13;, and XML line-end "
               "normalisation turns it into a line feed: IA5String 'a\\rb' decodes as 'a\\nb' (ElementTree does not escape CR in text)",
          witness=dict(kind='roundtrip', spec=HDR + 'A ::= IA5String' + END, codec='xer', type='A', value='a\rb')),
+    dict(key='per-empty-outermost-encoding', props=['C05'],
+         text='PER/UPER: a value whose complete encoding is empty (top-level NULL, INTEGER (5), OCTET STRING (SIZE (0)), one-item ENUMERATED) is '
+              'returned as zero octets; X.691 10.1.3 requires a single zero octet',
+         witness=dict(kind='encode_expect', spec=HDR + 'A ::= NULL' + END, codec='uper', type='A', value=None, expected_hex='00')),
+    dict(key='per-semi-constrained-integer-encoded-as-unconstrained', props=['C05'],
+         text='PER/UPER INTEGER (lb..MAX) is encoded as an unconstrained whole number instead of a semi-constrained one: INTEGER (-5..MAX) value 0 '
+              'gives 01 00, X.691 12.2.3/10.7 gives 01 05 (per.py:1018-1022 ignores the bounds when either is MIN/MAX)',
+         witness=dict(kind='encode_expect', spec=HDR + 'A ::= INTEGER (-5..MAX)' + END, codec='uper', type='A', value=0, expected_hex='0105')),
+    dict(key='per-universalstring-not-known-multiplier', props=['C05'],
+         text='PER/UPER UniversalString is encoded as an unconstrained string: SIZE and FROM constraints are ignored, UniversalString (SIZE (2)) '
+              "value 'ab' carries a length octet (02 00000061 00000062 instead of 00000061 00000062)",
+         witness=dict(kind='encode_expect', spec=HDR + 'A ::= UniversalString (SIZE (2))' + END, codec='uper', type='A', value='ab',
+                      expected_hex='0000006100000062')),
+    dict(key='per-permitted-alphabet-index-used-where-value-fits', props=['C05'],
+         text='PER/UPER known-multiplier string with FROM whose largest character value fits in b bits: X.691 30.5.4 encodes the character value, '
+              "the library its index: VisibleString (FROM (\" \"..\"~\")) value 'A' gives 01 42 (index 33) instead of 01 82 (value 65) in UPER",
+         witness=dict(kind='encode_expect', spec=HDR + 'A ::= VisibleString (FROM (" ".."~"))' + END, codec='uper', type='A', value='A',
+                      expected_hex='0182')),
+    dict(key='per-aligned-numericstring-from-indexes-full-alphabet', props=['C05'],
+         text="aligned PER NumericString (FROM (\"0\"..\"9\")): characters are indexed in the full NumericString alphabet (space first) "
+              "instead of the permitted alphabet: '7' gives 01 80 (index 8) instead of 01 70 (index 7) (per.py:577-578)",
+         witness=dict(kind='encode_expect', spec=HDR + 'A ::= NumericString (FROM ("0".."9"))' + END, codec='per', type='A', value='7',
+                      expected_hex='0170')),
+    dict(key='per-choice-index-in-declaration-order', props=['C05'],
+         text='PER/UPER CHOICE index follows the declaration order of the alternatives; X.691 23.2 indexes them in canonical tag order: '
+              'CHOICE { b INTEGER (0..3), a BOOLEAN } (no AUTOMATIC TAGS) value (a, TRUE) gives c0 (index 1), the standard 40 (BOOLEAN has the '
+              'smaller tag: index 0) (per.py:1530-1540)',
+         witness=dict(kind='encode_expect', spec=HDRX + 'A ::= CHOICE { b INTEGER (0..3), a BOOLEAN }' + END, codec='uper', type='A',
+                      value=T(['a', True]), expected_hex='40')),
+    dict(key='per-open-type-with-empty-content', props=['C05'],
+         text='PER/UPER: an extension addition whose own encoding is empty (NULL, empty SEQUENCE) is wrapped as an open type of length 0; X.691 10.2/11.2 '
+              'require the encoding of an open type to be at least one (zero) octet: SEQUENCE { a BOOLEAN, ..., n NULL } value {a TRUE, n NULL} gives '
+              'c0 40 00 instead of c0 40 01 00 (the repository tests pin the deviating bytes)',
+         witness=dict(kind='encode_expect', spec=HDR + 'A ::= SEQUENCE { a BOOLEAN, ..., n NULL }' + END, codec='uper', type='A',
+                      value={'a': True, 'n': None}, expected_hex='c0400100')),
 ]
